@@ -111,7 +111,8 @@ let () =
   (try
     while true do
       let line = input_line stdin in
-      if String.length line > 0 && line.[0] <> '#' then begin
+      if String.length line > 7 && String.sub line 0 7 = "PENDING" then incr lineno
+      else if String.length line > 0 && line.[0] <> '#' then begin
         incr lineno; incr cases;
         let parts = List.map trim (split_on line "|") in
         let impl_s = List.hd (split_on (List.hd parts) " ") and body = List.tl parts in
